@@ -56,6 +56,8 @@ fn main() {
             "at most 3 cases run concurrently (each has up to 33 threads) to bound oversubscription; when a failure is replayed or shrunk the workload is re-run up to 200 times because the schedule is not part of the case",
         ],
         |s| {
+            // "safe no-ops ... flush returns true": a case whose threads never come back is a violation
+            s.hang_is_violation(180);
             s.require("race:k>=2,m>=1", 5000);
             s.require("init_slot-loser-may-panic", 5000);
             s.require("raw-AmbientSlot-init", 5000);
